@@ -263,16 +263,28 @@ class LockSim(Sim):
         holder, other = rng.sample(live, 2)
         lid = self.lock_ids[0]
         # make `holder` hold the lock (release whatever is held first by letting locks expire)
-        for _ in range(int((self.auto_unlock * 1.5) / 0.02) + 10):
+        free_since = None
+        for _ in range(int((self.auto_unlock * 4.0) / 0.02) + 10):
             self.fair_round()
             if not self.lm.holders(lid):
-                break
+                if free_since is None:
+                    free_since = CLK.now
+                elif CLK.now - free_since >= self.auto_unlock * 1.5:
+                    break
+            else:
+                free_since = None
         self.one_step(('L', 'try', holder.key, lid))
         rec = self.lm.tries[-1]
         for _ in range(400):
             self.fair_round()
             if rec['res'] is not None:
                 break
+        if rec['res'] is not None and rec['res'][0] is False and rec['res'][1] == 0 and not self.lm.holders(lid):
+            # no client has considered the lock its own for 1.5 auto-unlock times of healthy network and nobody else is
+            # trying, yet the replicated table refuses it: it is held in the name of a client that does not hold it
+            raise Violation('C16', 'not_obtainable', 'lock %r is refused to %s although no client has considered it held for %.1fs '
+                            '(auto unlock %.1fs): the replicated table keeps it for somebody who was told he does not hold it'
+                            % (lid, holder.key, self.auto_unlock * 1.5, self.auto_unlock), phantom_holder=True)
         if rec['res'] is None or not rec['res'][0]:
             self.mon.obs['displacement_setup_failed'] += 1
             return
